@@ -8,12 +8,12 @@ LIB_SRCS = ['Lib/core/ctx.c', 'Lib/core/mod.c', 'Lib/core/ps.c', 'Lib/core/evts.
             'Lib/core/fs/fs_noop.c', 'Lib/core/poll/epoll.c', 'Lib/core/poll/cmn_linux.c', 'Lib/structs/map.c',
             'Lib/structs/queue.c', 'Lib/structs/stack.c', 'Lib/structs/list.c', 'Lib/structs/bst.c', 'Lib/mem/mem.c',
             'Lib/thpool/thpool.c', 'Lib/utils/mem.c', 'Lib/utils/log.c', 'Lib/utils/utils.c']
-HARNESS_EXTRA = ['-Wl,--wrap=pthread_setspecific,--wrap=pipe,--wrap=close,--wrap=poll_wait', '-lpthread', '-ldl']
+HARNESS_EXTRA = ['-Wl,--wrap=pthread_setspecific,--wrap=pipe,--wrap=close,--wrap=dup,--wrap=poll_wait', '-lpthread', '-ldl']
 DEFINES = ['LIBMODULE_LOG_CTX=CORE']
 model_input = corelib.model_input
 project = corelib.project_all
 FULL_ALPHABET = ['ctx', 'reg', 'reg', 'life', 'life', 'life', 'loop', 'loop', 'ps', 'ps', 'sub', 'become', 'stash', 'batch',
-                 'tb', 'fd', 'fd', 'tmr', 'srclen', 'errno', 'flags', 'prio', 'pill', 'tick']
+                 'tb', 'fd', 'fd', 'tmr', 'srclen', 'errno', 'flags', 'prio', 'pill', 'tick', 'burst', 'foreign']
 
 
 def gen_fragments():
@@ -24,7 +24,7 @@ def gen_fragments():
 
 
 def wellformed(lines):
-    return True
+    return corelib.wellformed_core(lines)
 
 
 def known_match(k, lines, msg):
